@@ -9,6 +9,7 @@ from ..engine.mutate import Mutant, Variant, in_function, replace_once, sub_once
 from ..engine.runner import Rule
 from ..engine.source import AnalysisError
 from . import C10
+from . import C12
 from . import shared
 from .common import callee_name, calls_in, kwarg, stmts_of
 
@@ -652,7 +653,81 @@ def rule_declaration_wired(ctx):
     ctx.check(n_app >= 3, am.fq, "inputs, outputs and volatile outputs of an amend all contribute their edge ids", f"{n_app} append site(s) (3 confirmed by hand: inputs, outputs, volatile outputs)", f"{n_app} sites")
 
 
+# Sites of the same shape as the two for which a failing history exists (F63, F64), confirmed by reading, one reason each.
+RUN_REPORT_SIBLINGS_NOT_JUDGED = {
+    "executor.Executor.try_skip_job": "the mapping holds only outputs whose stored hash object differs while every digest and mode agrees (otherwise the check does not skip); tried with touch and chmod: empty, or no skip",
+    "executor.Executor._new_run": "needs an input that changes on disk and changes role within the hashing thread before the command starts; not reproduced",
+}
+
+
+def _states_let_through(ctx, fi):
+    """States accepted by the `get_state() in X` / `get_state() not in X` test of a recording function (None: not understood)."""
+    FS = ctx.prog.enum("FileState")
+    roles = ctx.prog.fold("enums", "FILE_STATES_BY_ROLE")
+    by_role = {k.name: {x.name for x in v} for k, v in roles.items()}
+    for n in ast.walk(fi.node):
+        if not (isinstance(n, ast.Compare) and len(n.ops) == 1 and isinstance(n.ops[0], (ast.In, ast.NotIn)) and isinstance(n.left, ast.Call) and callee_name(n.left) == "get_state"):
+            continue
+        rhs = n.comparators[0]
+        named = None
+        if isinstance(rhs, ast.Subscript) and ast.unparse(rhs.value) == "FILE_STATES_BY_ROLE" and isinstance(rhs.slice, ast.Attribute) and ast.unparse(rhs.slice.value) == "FileRole":
+            named = by_role.get(rhs.slice.attr)
+        elif isinstance(rhs, (ast.Tuple, ast.Set, ast.List)) and all(isinstance(e, ast.Attribute) and ast.unparse(e.value) == "FileState" for e in rhs.elts):
+            named = {e.attr for e in rhs.elts}
+        if named is None:
+            return None
+        return named if isinstance(n.ops[0], ast.In) else {m.name for m in FS} - named
+    return None
+
+
+def rule_run_reports_filtered(ctx):
+    """R-C09-13: a step run reports hashes only for nodes that still have the role they were collected in.
+
+    A run collects the paths of its inputs and outputs in one transaction, computes hashes in a thread (or runs the command)
+    and records them in a later transaction with cause SUCCEEDED or FAILED.  In between, a new declaration can give a path
+    another role, for which _HASH_TRANSITIONS has no row of that cause: update_file_hashes raises ConsistencyError in the
+    director.  Each site that records such a report must therefore select, in the recording function, by the node's current
+    state (as Executor._record_written_outputs does).  Hash jobs (cause taken from the job: CONFIRMED / EXTERNAL) are another
+    mechanism and are listed, not judged.
+    """
+    n_sites = 0
+    for fi in sorted((f for f in ctx.prog.all_functions() if f.module.name == "executor" and f.parent is None), key=lambda f: f.fq):
+        for c in calls_in(fi.node):
+            if callee_name(c) != "update_file_hashes":
+                continue
+            cause = kwarg(c, "cause")
+            names = sorted({n.attr for n in ast.walk(cause) if isinstance(n, ast.Attribute) and isinstance(n.value, ast.Name) and n.value.id == "HashUpdateCause"}) if cause is not None else []
+            if not names:
+                ctx.ok(fi.fq, "hash job: the cause comes with the job (listed, not judged by this rule)", "out of scope", where=ctx.where_of(fi, c))
+                continue
+            n_sites += 1
+            if fi.fq in RUN_REPORT_SIBLINGS_NOT_JUDGED:
+                ctx.ok(fi.fq, f"report with cause {'/'.join(names)}: same shape as the judged sites, no failing history shown (listed, not judged)", RUN_REPORT_SIBLINGS_NOT_JUDGED[fi.fq], where=ctx.where_of(fi, c))
+                continue
+            params = {a.arg for a in fi.node.args.args}
+            first = c.args[0] if c.args else None
+            bound_here = isinstance(first, ast.Name) and first.id not in params and any(isinstance(n, ast.Assign) and len(n.targets) == 1 and isinstance(n.targets[0], ast.Name) and n.targets[0].id == first.id and isinstance(n.value, (ast.Dict, ast.DictComp)) for n in ast.walk(fi.node))
+            tests_state = any(isinstance(n, ast.Compare) and any(isinstance(k, ast.Call) and callee_name(k) == "get_state" for k in ast.walk(n)) for n in ast.walk(fi.node))
+            if bound_here and tests_state:
+                # the states the selection lets through all have a row for every cause the site can report
+                allowed = _states_let_through(ctx, fi)
+                HCn = ctx.prog.enum("HashUpdateCause")
+                rows = {(k[0].name, k[1].name, k[2]) for k in ctx.prog.fold("workflow", "_HASH_TRANSITIONS")}
+                no_row = sorted((cn, st) for cn in names for st in (allowed or ()) if not ({(cn, st, True), (cn, st, False)} & rows))
+                ctx.check(allowed is not None and not no_row, fi.fq,
+                          f"the states that the selection lets through have a transition for cause {'/'.join(names)}",
+                          f"the selection lets through states without a row for the cause ({no_row if allowed is not None else 'selection not understood'}): a path that was given another role is still recorded, update_file_hashes raises ConsistencyError",
+                          f"lets through {sorted(allowed or ())}", where=ctx.where_of(fi, c))
+            ctx.check(bound_here and tests_state, fi.fq,
+                      f"hashes reported with cause {'/'.join(names)} are restricted, where they are recorded, to nodes still in the role they were collected in",
+                      "the mapping was collected before the command or a hashing thread and is recorded as it is: a path that a new declaration gave another role meanwhile has no transition for this cause, update_file_hashes raises ConsistencyError and the director dies",
+                      "selected by get_state() in the recording function", where=ctx.where_of(fi, c))
+    ctx.control(n_sites >= 5, "step-run report sites found in executor", f"only {n_sites} update_file_hashes sites with a literal SUCCEEDED/FAILED cause (5 confirmed by hand)")
+
+
 RULES = [
+    Rule("R-C09-14", "a step declared again while running or being checked keeps its row, and no verdict is applied to the re-created row", C12.rule_redeclared_running_step, min_instances=22),
+    Rule("R-C09-13", "a step run reports hashes only for nodes still in the role they were collected in", rule_run_reports_filtered, min_instances=7),
     Rule("R-C09-12", "declarations and amendments are written into the graph", rule_declaration_wired, min_instances=6),
     Rule("R-C09-11", "update_file_hashes applies the transition table", rule_transitions_applied, min_instances=8),
     Rule("R-C09-10", "the cached readiness follows every change of an input's attachment or state (a stale _ready lets _derive_job meet a state it rejects as internal error)", C10.rule_flag_coverage, min_instances=62),
@@ -673,6 +748,9 @@ def _drop_trigger(name, file):
 
 
 MUTANTS = [
+    Mutant("dropped-run-report-negative-selection", "executor.py", in_function("Executor._record_written_outputs", replace_once("file.get_state() in FILE_STATES_BY_ROLE[FileRole.OUTPUT]", "file.get_state() not in FILE_STATES_BY_ROLE[FileRole.STATIC]")), ("R-C09-13",)),
+    Mutant("dropped-run-report-unfiltered", "executor.py", in_function("Executor._record_written_outputs", replace_once("        self.workflow.update_file_hashes(still_outputs, cause=HashUpdateCause.FAILED)\n", "        self.workflow.update_file_hashes(out_hashes, cause=HashUpdateCause.FAILED)\n")), ("R-C09-13",)),
+    Mutant("dropped-run-report-state-test-gone", "executor.py", in_function("Executor._record_written_outputs", replace_once("            if file is not None and file.get_state() in FILE_STATES_BY_ROLE[FileRole.OUTPUT]:\n", "            if file is not None:\n")), ("R-C09-13",)),
     Mutant("output-declared-without-edge", "workflow.py", in_function("Workflow.define_step", replace_once("            file = self._declare_file(step, out_path, FileState.PLANNED)\n            file.add_source(step)\n", "            file = self._declare_file(step, out_path, FileState.PLANNED)\n")), ("R-C09-12",)),
     Mutant("declared-env-deps-dropped", "workflow.py", in_function("Workflow.define_step", replace_once("        step.add_env_deps(env_deps)\n", "")), ("R-C09-12",)),
     Mutant("amended-inputs-not-marked-dynamic", "workflow.py", in_function("Workflow.amend_step", replace_once("                dynamic_ideps.append((info.new_idep,))\n", "                pass\n")), ("R-C09-12",)),
@@ -714,6 +792,9 @@ MUTANTS = [
     Mutant("clear-hash-built", "file.py", replace_once("        {FileState.MISSING.value},\n        {FileState.PLANNED.value},", "        {FileState.MISSING.value},\n        {FileState.OUTDATED.value},\n        {FileState.PLANNED.value},"), ("R-C09-6",)),
     Mutant("no-consistency-chain", "workflow.py", in_function("Workflow._check_consistency", replace_once("        super()._check_consistency()\n", "")), ("R-C09-7",)),
 ]
+
+# the declared-again mechanism is shared with C12 (R-C12-10): its mutants are replayed for this property's copy of the rule
+MUTANTS += [Mutant("shared-" + m.name, m.file, m.transform, ("R-C09-14",), m.note) for m in C12.MUTANTS if m.name in ['redeclared-running-row-reset', 'checking-row-reset-by-redeclaration', 'dropped-run-outputs-recorded-whatever-their-role', 'redeclared-running-loses-holds']]
 
 VARIANTS = [
     Variant("reorder-transition-rows", "workflow.py", lambda t: t.replace('    (HashUpdateCause.EXTERNAL, FileState.MISSING, True): (FileState.CONFIRMED, "updated"),\n    (HashUpdateCause.EXTERNAL, FileState.CONFIRMED, True): (FileState.CONFIRMED, "updated"),\n', '    (HashUpdateCause.EXTERNAL, FileState.CONFIRMED, True): (FileState.CONFIRMED, "updated"),\n    (HashUpdateCause.EXTERNAL, FileState.MISSING, True): (FileState.CONFIRMED, "updated"),\n')),
